@@ -25,7 +25,8 @@ theorem alloc_eq_gen (c : Cfg) (m : Mach) (size : Nat) :
       (let P := c.P
        let base := m.k.brk
        let a := base * P
-       let k0 : Kernel := { m.k with brk := base + Gen.Protected.allocate_size size P / P }
+       let k0 : Kernel := { m.k with brk := base + Gen.Protected.allocate_size size P / P,
+                                     al := m.k.al ++ [(base, size)] }
        let k1 := mprotect P k0 a P .none
        let k2 := mprotect P k1 (a + Gen.Protected.allocate_aft_offset size P) P .none
        let k3 := mprotect P k2 (a + P) size .rw
